@@ -43,6 +43,10 @@ type c17Case struct {
 	// SwitchInner: in switch mode, how many pass-through grpchan layers sit *below* the user-defined wrapper
 	// (between it and the connection)
 	SwitchInner int `json:",omitempty"`
+	// SwitchOneKind: in switch mode the even layers (L0, the one directly on the user-defined wrapper, included)
+	// have an interceptor only for the kind of call that is *not* being made, so they hand the call straight to
+	// the channel they wrap; the user-defined wrapper counts the calls that come through it
+	SwitchOneKind bool `json:",omitempty"`
 	// ViaOld: every other layer is made with grpchan.InterceptChannel, the older name of InterceptClientConn
 	ViaOld bool `json:",omitempty"`
 	// Follow: a second, identical call through the same wrapper, made with the context that the innermost
@@ -92,8 +96,16 @@ func c17Desc(c *c17Case) *grpc.StreamDesc {
 }
 
 type c17SwitchConn struct {
-	mu  sync.Mutex
-	cur grpc.ClientConnInterface
+	mu    sync.Mutex
+	cur   grpc.ClientConnInterface
+	calls int // calls made through the wrapper itself (not through whatever Unwrap returned)
+}
+
+func (s *c17SwitchConn) count() grpc.ClientConnInterface {
+	s.mu.Lock()
+	defer s.mu.Unlock()
+	s.calls++
+	return s.cur
 }
 
 func (s *c17SwitchConn) get() grpc.ClientConnInterface {
@@ -103,10 +115,10 @@ func (s *c17SwitchConn) get() grpc.ClientConnInterface {
 }
 func (s *c17SwitchConn) Unwrap() grpc.ClientConnInterface { return s.get() }
 func (s *c17SwitchConn) Invoke(ctx context.Context, method string, req, resp interface{}, opts ...grpc.CallOption) error {
-	return s.get().Invoke(ctx, method, req, resp, opts...)
+	return s.count().Invoke(ctx, method, req, resp, opts...)
 }
 func (s *c17SwitchConn) NewStream(ctx context.Context, desc *grpc.StreamDesc, method string, opts ...grpc.CallOption) (grpc.ClientStream, error) {
-	return s.get().NewStream(ctx, desc, method, opts...)
+	return s.count().NewStream(ctx, desc, method, opts...)
 }
 
 func c17Switch(c c17Case) *Outcome {
@@ -148,19 +160,30 @@ func c17Switch(c c17Case) *Outcome {
 	}
 	for i := 0; i < n; i++ {
 		id := fmt.Sprintf("L%d", i)
-		ch = grpchan.InterceptClientConn(ch,
-			func(ctx context.Context, method string, req, reply interface{}, cc *grpc.ClientConn, invoker grpc.UnaryInvoker, opts ...grpc.CallOption) error {
-				mu.Lock()
-				seen = append(seen, id+"="+ccLabel(cc, realCC))
-				mu.Unlock()
-				return invoker(ctx, method, req, reply, cc, opts...)
-			},
-			func(ctx context.Context, desc *grpc.StreamDesc, cc *grpc.ClientConn, method string, streamer grpc.Streamer, opts ...grpc.CallOption) (grpc.ClientStream, error) {
-				mu.Lock()
-				seen = append(seen, id+"="+ccLabel(cc, realCC))
-				mu.Unlock()
-				return streamer(ctx, desc, cc, method, opts...)
-			})
+		var ui grpc.UnaryClientInterceptor = func(ctx context.Context, method string, req, reply interface{}, cc *grpc.ClientConn, invoker grpc.UnaryInvoker, opts ...grpc.CallOption) error {
+			mu.Lock()
+			seen = append(seen, id+"="+ccLabel(cc, realCC))
+			mu.Unlock()
+			return invoker(ctx, method, req, reply, cc, opts...)
+		}
+		var si grpc.StreamClientInterceptor = func(ctx context.Context, desc *grpc.StreamDesc, cc *grpc.ClientConn, method string, streamer grpc.Streamer, opts ...grpc.CallOption) (grpc.ClientStream, error) {
+			mu.Lock()
+			seen = append(seen, id+"="+ccLabel(cc, realCC))
+			mu.Unlock()
+			return streamer(ctx, desc, cc, method, opts...)
+		}
+		if c.SwitchOneKind && i%2 == 0 {
+			// only the other kind's interceptor: this layer has nothing to do for the call being made
+			if c.Stream {
+				si = nil
+			} else {
+				ui = nil
+			}
+		}
+		ch = grpchan.InterceptClientConn(ch, ui, si)
+	}
+	if c.SwitchOneKind {
+		o.class("switching-wrapped-conn/one-kind-layers")
 	}
 	for k, target := range c.Switch {
 		sw.mu.Lock()
@@ -174,6 +197,9 @@ func c17Switch(c c17Case) *Outcome {
 		mu.Lock()
 		seen = nil
 		mu.Unlock()
+		sw.mu.Lock()
+		sw.calls = 0
+		sw.mu.Unlock()
 		var err error
 		stall := guard("call", func() {
 			ctx, cancel := context.WithCancel(context.Background())
@@ -202,7 +228,16 @@ func c17Switch(c c17Case) *Outcome {
 		mu.Unlock()
 		var wantLog []string
 		for i := n - 1; i >= 0; i-- {
+			if c.SwitchOneKind && i%2 == 0 {
+				continue
+			}
 			wantLog = append(wantLog, fmt.Sprintf("L%d=%s", i, want))
+		}
+		sw.mu.Lock()
+		through := sw.calls
+		sw.mu.Unlock()
+		if through != 1 {
+			return o.failf("switch mode: call %d of %v: the user-defined channel the layers wrap saw %d calls, expected exactly 1 (layers without an interceptor for this kind of call go straight to the channel they wrap)", k+1, c.Switch, through)
 		}
 		if !sameStrings(got, wantLog) {
 			return o.failf("switch mode: call %d of %v goes over %s: interceptors were handed %v, expected %v (the conn underlying this call)", k+1, c.Switch, target, got, wantLog)
@@ -611,6 +646,7 @@ func genC17(t *rapid.T) c17Case {
 		c.Layers = make([]c17Layer, rapid.IntRange(1, 3).Draw(t, "switchdepth"))
 		c.Switch = rapid.SliceOfN(rapid.SampledFrom([]string{"inproc", "grpc"}), 2, 4).Draw(t, "targets")
 		c.SwitchInner = rapid.IntRange(0, 2).Draw(t, "switchinner")
+		c.SwitchOneKind = rapid.IntRange(0, 2).Draw(t, "switchonekind") == 0
 		return c
 	}
 	c := c17Case{Base: rapid.SampledFrom([]string{"fake", "fake", "inproc", "http", "grpc", "grpc"}).Draw(t, "base"), Stream: rapid.Bool().Draw(t, "stream"), NOpts: rapid.IntRange(0, 2).Draw(t, "nopts")}
